@@ -118,6 +118,36 @@ theorem elboEntropy_formula (logp h : List ℝ) (c : ℝ) (hS : logp ≠ []) (hc
   unfold elboEntropy
   rw [const_list hc, mean_replicate _ (by simpa using hS)]
 
+/-! ### the two gradient surrogates (not estimates of `log Z`): what they reduce to at constant log-weights -/
+
+/-- at constant log-weights the importance weights are uniform: the surrogate is minus the mean of `log q` -/
+theorem klpqImportance_const (logq : List ℝ) (c : ℝ) (h : logq ≠ []) :
+    klpqImportance (logq.map (· + c)) logq = -(mean logq) := by
+  obtain ⟨n, hn⟩ : ∃ n, logq.length = n + 1 := ⟨logq.length - 1, by have := List.length_pos_iff.mpr h; omega⟩
+  unfold klpqImportance
+  simp only [zip_shift]
+  rw [hn, maxL_replicate]
+  simp only [List.map_replicate, sub_self, trans_exp_real, Real.exp_zero]
+  rw [sum_replicate_real, ← hn, sum_zip_replicate_div_mul]
+  unfold mean
+  rw [natTo_real, hn]
+  have : ((n : ℝ) + 1) ≠ 0 := by positivity
+  push_cast
+  field_simp
+  ring
+
+/-- the score-function surrogate at constant log-weights `c` is `c` times the mean of `log q` -/
+theorem elboScore_const (logq : List ℝ) (c : ℝ) :
+    elboScore (logq.map (· + c)) logq = c * mean logq := by
+  unfold elboScore mean
+  have : ((logq.map (· + c)).zip logq).map (fun pq => (pq.1 - pq.2) * pq.2) = logq.map (fun x => c * x) := by
+    induction logq with
+    | nil => rfl
+    | cons x xs ih => simp [ih]
+  rw [this, List.length_map, List.sum_map_mul_left]
+  simp only [List.map_id']
+  ring
+
 /-! ### why the log-weights are constant at the posterior -/
 
 /-- **bayes_constant**: if `q = joint / Z` pointwise then `log joint − log q = log Z` at every point -/
